@@ -127,7 +127,7 @@ def energy_err(A, x, xs):
 def run(c, op, g, rhs, repeats, solver):
     if c['method'] == 'als':
         return sle.als(op, g, rhs, repeats=repeats, solver=solver)
-    kw = {'threshold': c['threshold']}
+    kw = {'threshold': np.float64(c['threshold']) if c.get('max_rank_type', 'int') != 'int' else c['threshold']}      # (NumPy scalars together)
     if c['max_rank'] is not None:
         # the cap as a python int or as a NumPy integer scalar (the result of np.min(...), an entry of an integer array, ...)
         kw['max_rank'] = {'int': int, 'np.int64': np.int64, 'np.int32': np.int32}[c.get('max_rank_type', 'int')](c['max_rank'])
